@@ -332,6 +332,8 @@ def end_to_end(ctx: Ctx):
 
 
 def check(ctx: Ctx) -> None:
+    from .c11 import reparse_rule
+    ctx.guard("R14.fresh", "packets.py::CCSDSPacket", reparse_rule, ctx, "R14.fresh")    # consumption is counted from bit 0 of each parse
     ctx.guard("R14.1", f"{PK}::RawPacketData", guarded_advance, ctx)
     ctx.guard("R14.2", PK, single_writer, ctx)
     ctx.guard("R14.3", GEN, final_comparison, ctx)
@@ -387,7 +389,7 @@ SPEC = PropSpec(
     pid="C14",
     title="Bit consumption is accounted for; over-reads are never delivered as clean data",
     check=check,
-    floors={"R14.1": 2, "R14.2": 2, "R14.3": 2, "R14.4": 6},
+    floors={"R14.1": 2, "R14.2": 2, "R14.3": 2, "R14.4": 6, "R14.fresh": 1},
     fallback={"R14.1": ("R14.4",)},
     explanation=("R14.1: forward must-facts over the CFG of each RawPacketData method that advances the cursor: at every "
                  "`self.pos += n` the facts `8*len(self) - pos - n >= 0` and `n >= 0` must have been established by "
